@@ -127,6 +127,8 @@ def run(ctx):
             (dict(hosts=["10.0.0.1", "10.0.0.2"], rounds=14), 1),
             (dict(hosts=["10.0.0.1", "10.0.0.2", "fe80::1"], rounds=12, **small), 1),
             (dict(hosts=["10.0.0.1"], rounds=7, **small), 2),
+            # address spellings: a scoped link-local address and an uncompressed one (the socket reports the peer in the kernel's spelling)
+            (dict(hosts=["fe80::1%eth0", "10.0.0.2", "fd00:0:0:0::5"], rounds=7, behaviours=["ok", "wrong-id", "close-m1"], triggers=["zc-same", "drop", "ensure"]), 2),
             (dict(hosts=["10.0.0.1"], rounds=6, subscriptions=True, behaviours=["ok", "ok-close-on-subscribe", "ok-reset-on-subscribe", "ok-bad-subscribe-reply", "auth-error"], triggers=["zc-same", "ensure", "drop", "close"]), 2),
             # from non-initial states: connected then dropped; authentication failed; closed then re-triggered
             (dict(hosts=["10.0.0.1", "10.0.0.2"], rounds=6, prelude=["ok|10.0.0.1|ok", "drop"], **small), 1),
@@ -151,6 +153,7 @@ def run(ctx):
             (dict(hosts=["10.0.0.1", "10.0.0.2"], rounds=10), 2),
             (dict(hosts=["10.0.0.1", "10.0.0.2", "fd00::1"], rounds=14), 1),
             (dict(hosts=["10.0.0.1", "10.0.0.2"], rounds=7, **small), 3),
+            (dict(hosts=["fe80::1%eth0", "fd00:0:0:0::5", "10.0.0.2"], rounds=8, behaviours=["ok", "wrong-id", "close-m1", "auth-error"], triggers=["zc-same", "zc-changed", "drop", "ensure", "close"]), 2),
             (dict(hosts=["10.0.0.1", "10.0.0.2"], rounds=8, prelude=["ok|10.0.0.1|ok", "drop"]), 2),
             (dict(hosts=["10.0.0.1"], rounds=7, subscriptions=True), 2),
             (dict(hosts=["10.0.0.1"], rounds=6, prelude=["ok|10.0.0.1|auth-error"]), 2),
